@@ -72,7 +72,12 @@ VerdictHD(p, e, s) ==
          First2(Result(e.env, p.cfg, ChildSpec(e.env, p.keys[e.src].k, e.idx), e, s), Frame(p, s, {e.dst}))
     [] e.op = "Neuter" ->
          LET x == NeuterSpec(e.env, p.cfg.hdmap, p.keys[e.src].k) IN
-         First2(Result(e.env, p.cfg, x, e, s), Frame(p, s, {e.dst}))
+         First2(First2(Result(e.env, p.cfg, x, e, s),
+                       \* neutering an already-public key is documented to return that same key; the neutered form of a
+                       \* private key is a new object
+                       IF e.ok /\ "same" \in DOMAIN e /\ e.same # ~p.keys[e.src].k.priv
+                         THEN V("neuter-object-identity", ~p.keys[e.src].k.priv, e.same) ELSE OK),
+                Frame(p, s, {e.dst}))
     [] e.op = "Parse" ->
          LET x == ParseSpec(e.env, e.s) IN
          First2(First2(Result(e.env, p.cfg, x, e, s),
@@ -92,6 +97,9 @@ VerdictHD(p, e, s) ==
                 ELSE IF e.z.priv THEN V("zeroed-key-still-private", FALSE, TRUE)
                 ELSE IF e.z.prverr # "not-private" THEN V("zeroed-key-yields-private-key", "not-private", e.z.prverr)
                 ELSE IF ~e.z.bufzero THEN V("zeroed-key-buffers-not-erased", "all zero", e.z.nonzero)
+                \* a zeroed key stays zeroed whatever is done to it afterwards (here: SetNet, Neuter, Child)
+                ELSE IF "after" \in DOMAIN e.z /\ e.z.after.str # ZeroedStr THEN V("zeroed-key-revived", "zeroed extended key", Cut(e.z.after.str))
+                ELSE IF "after" \in DOMAIN e.z /\ e.z.after.prverr # "not-private" THEN V("zeroed-key-yields-private-key", "not-private", e.z.after.prverr)
                 ELSE IF e.src \in DOMAIN s.keys THEN V("zeroed-key-still-live", "gone", e.src)
                 ELSE OK,
                 Frame(p, s, {e.src}))
